@@ -384,10 +384,13 @@ class KMIPProxy(object):
         batch_item = response_message.batch_items[0]
 
         if batch_item.result_status.value != enums.ResultStatus.SUCCESS:
+            result_message = None
+            if batch_item.result_message:
+                result_message = batch_item.result_message.value
             raise exceptions.OperationFailure(
                 batch_item.result_status.value,
                 batch_item.result_reason.value,
-                batch_item.result_message.value
+                result_message
             )
 
         if batch_item.operation.value != operation:
